@@ -55,7 +55,6 @@ def oracle_committors(Tf, src, snk):
 
 
 REVERSIBLE_KINDS = ('rev', 'meta-rev', 'sticky', 'tiny-rev', 'pendant', 'rev-dyadic', 'banded')
-NPMATRIX_KEY = 'reactive-fluxes-np-matrix'
 
 
 def requests(case):
@@ -88,13 +87,13 @@ def check_case(ctx, case, resp):
     q = oracle_committors(Tf, src, snk)
     # rounding allowances, propagated from what binary64 can deliver:
     #  * committors |dq| <= 2e-15/g, g = min(spectral gap, smallest exit probability 1 - T_ii)  (observed <= 1.6e-16/g)
-    #  * computed populations: relative 1e-13/gap (observed <= 3.2e-15/gap) and 1e-14/pi_min (LAPACK eig is absolute-accurate)
+    #  * computed populations: relative 1e-13/gap (observed <= 3.2e-15/gap) and 1e-12/pi_min (LAPACK eig is absolute-accurate)
     #  * f = pi T (1-q_i) q_j  =>  |df| <= 2 dq max(pi_i T_ij) + dpi f.
     # All flux comparisons are RELATIVE to the flux scale fs.  Ordinary chains: allowance ~ 1e-9 fs.
     fac, gap = base.cond_factor(Tf)
     stick = base.stickiness(Tf)
     dq = 2e-15 / min(gap, stick)
-    dpi = max(1e-13 / gap, 1e-14 / base.pi_min(Tf))
+    dpi = max(1e-13 / gap, 1e-12 / base.pi_min(Tf))   # observed <= 1.5e-14/pi_min
     minp = 1e-14 / stick                      # float chain vs exact rational chain (model comparisons only)
     if fac > 1:
         ctx.tag('slow-mixing gap<1e-%d' % int(np.floor(-np.log10(gap))))
@@ -133,7 +132,7 @@ def check_case(ctx, case, resp):
     for cont in ['ndarray'] + case['containers']:
         for pops in case['pops']:
             X = base.to_container(Tf, cont)
-            a_src, a_snk = base.as_arg(src, case['argform']), base.as_arg(snk, case['argform'])
+            a_src, a_snk = base.as_arg(src, case['argform']), base.as_arg(snk, case.get('argform_sinks', case['argform']))
             p, pi = base.pops_arg(pi_exact, pops)
             f_ref, fs, ftol, dens_ref, N_ref, ptol = refs(pi)
             f32 = pops == 'given-f32' or cont == 'float32'
@@ -145,10 +144,8 @@ def check_case(ctx, case, resp):
             pop_ok = ptol <= REL_CAP
             before = (base.snap(X), base.snap(a_src), base.snap(a_snk), base.snap(p))
             where = dict(container=cont, pops=pops)
-            key = NPMATRIX_KEY if cont == 'npmatrix' else None
-
             def fail(what, **extra):
-                ctx.violation(what, dict(case, **extra), key=key)
+                ctx.violation(what, dict(case, **extra))
 
             ctx.tag('container=' + cont)
             ctx.tag('pops=' + pops)
@@ -238,8 +235,6 @@ def check_case(ctx, case, resp):
                     if np.max(np.abs(rpop - dens_ref / N_ref)) > ptol:
                         return fail('reactive populations differ from pi q+ q- normalised', failing='pop-definition',
                                     got=rpop.tolist()[:40], **where)
-            if cont == 'npmatrix':
-                continue
             if dense_out is None:
                 dense_out = (f, g, rpop, pops)
             else:
@@ -290,8 +285,7 @@ def make_cases(ctx):
         return [CONTAINERS[rot[0] % len(CONTAINERS)]]
 
     def dense_var(kind):
-        v = base.dense_variant(kind, rot[0])
-        return [] if v == 'npmatrix' else [v]        # np.matrix: see the known finding, exercised separately
+        return [base.dense_variant(kind, rot[0])]
 
     def add(kind, T, A, B, containers, pops, mode, **extra):
         rot[0] += 1
@@ -373,15 +367,13 @@ def make_cases(ctx):
         add(kind, T, A, B, list(CONTAINERS) if r % 3 == 0 else one_container(), ['none', 'given'], 'scale',
             reuse=(r % 2 == 0))
     # more than 255 states (reversible banded chain; ids above 255; oracle only)
-    for r in range(ctx.n(1, 6)):
+    for r in range(ctx.n(2, 6)):
         n = base.LARGE_N[r % len(base.LARGE_N)]
-        hi = [int(x) for x in rng.choice(np.arange(256, n), size=min(2, n - 256), replace=False)]
-        lo = [int(x) for x in rng.choice(256, size=3, replace=False)]
-        A, B = (hi[:1] + lo[:1], hi[1:] + lo[1:]) if r % 2 == 0 else (lo[:2], hi + lo[2:])
+        A, B, fa, fb = base.large_sets(rng, n, r)
         add('banded', {'family': 'banded', 'n': n, 'seed': int(rng.integers(0, 2 ** 31))}, A, B,
             ['csr_matrix', 'lil_matrix', 'fortran'], ['none', 'given'], 'large-n',
-            argform=['uint16', 'int16', 'int32', 'list', 'tuple', 'uint8'][r % 6], reuse=(r == 0))
-    # np.matrix input (what scipy's .todense() returns): see known_findings.d/C08.json
+            argform=fa, argform_sinks=fb, reuse=(r == 0))
+    # np.matrix input (what scipy's .todense() returns; computed a matrix product before the fix in /repo)
     for r in range(ctx.n(4, 40)):
         n = int(rng.integers(3, 8))
         T = base.gen_chain(rng, n, 'rev')
@@ -419,7 +411,7 @@ def run(ctx):
                             'relative_to': 'flux scale; allowances propagated from dq=2e-15/min(gap, exit), dpi'})
 
 
-REPLAY_KEYS = ('kind', 'T', 'Tgen', 'model', 'sources', 'sinks', 'pi', 'containers', 'pops', 'argform', 'callstyle',
+REPLAY_KEYS = ('kind', 'T', 'Tgen', 'model', 'sources', 'sinks', 'pi', 'containers', 'pops', 'argform', 'argform_sinks', 'callstyle',
                'reuse', 'mode')
 
 
